@@ -126,6 +126,11 @@ def choose_pairs(rng, thorough):
         (one("cube"), "topology", one("truncated_octahedron")),
         (one("truncated_octahedron_split"), "topology", one("cube", rot=rng.randint(1, 24))),
         (one("rhombic_dodecahedron"), "topology", one("octahedron")),  # unequal corner lengths: node data only
+        # sources (and one destination) that SUPPLY face and edge centres which are not the nodal centroids / midpoints
+        (one("cube"), "topology_offcentres", one("cuboctahedron")),  # from_topology keyword arguments
+        (one("cuboctahedron"), "ugrid_offcentres", one("cube")),  # in-memory UGRID dataset
+        (one("octahedron"), "topology_offcentres", one("octahedron")),  # onto itself: identity on supplied centres
+        (one("cube"), "topology", one("truncated_octahedron"), "ugrid_offcentres"),  # destination with supplied centres
     ]
     if thorough:
         names = sorted({e["name"] for e in catalog.entries()})
@@ -137,6 +142,10 @@ def choose_pairs(rng, thorough):
         for nm in ("cuboctahedron", "truncated_octahedron", "rhombicuboctahedron"):
             pairs.append((one(nm), "ugrid_centres", one("cube", rot=rng.randint(0, 24))))
         pairs.append((one("tetrahedron", rot=7), "topology", one("tetrahedron", rot=7)))
+        pairs.append((one("rhombic_dodecahedron"), "topology_offcentres", one("cube", rot=rng.randint(1, 24))))  # unequal corner lengths, supplied centres
+        pairs.append((one("truncated_octahedron_split", rot=rng.randint(1, 24)), "ugrid_offcentres", one("cuboctahedron"), "topology_offcentres"))
+        pairs.append((one("tetrahedron"), "topology_offcentres", one("cube")))  # coincident sizes and supplied centres
+    pairs = [p if len(p) == 4 else (p[0], p[1], p[2], "topology") for p in pairs]
     seen, out = set(), []
     for p in pairs:
         if pair_id(p) not in seen:
@@ -146,24 +155,29 @@ def choose_pairs(rng, thorough):
 
 
 def pair_id(p):
-    return "%s[%s]->%s" % (eid(p[0]), p[1], eid(p[2]))
+    return "%s[%s]->%s%s" % (eid(p[0]), p[1], eid(p[2]), "" if p[3] == "topology" else "[%s]" % p[3])
+
+
+def same_grid(p):
+    return eid(p[0]) == eid(p[2]) and p[1] == p[3]
 
 
 def pair_plan(p):
     """Phase A: element positions of source (every kind) and destination (every kind) as lattice
     directions, from the grids' own reported spherical coordinates."""
-    src, variant, dst = p
-    out = {"pid": pair_id(p), "S": {}, "D": {}, "xyz_ok": {}, "sizes": {}}
+    src, variant, dst, dvariant = p
+    out = {"pid": pair_id(p), "S": {}, "D": {}, "xyz_ok": {}, "dxyz_ok": {}, "sizes": {}}
     try:
         gs = X.build_grid(src, variant)
-        gd = gs if (dst is src) else X.build_grid(dst, "topology")
+        gd = gs if same_grid(p) else X.build_grid(dst, dvariant)
         for kind in X.KINDS:
-            s = X.project(src, gs, kind, "spherical")
+            s = X.project(src, gs, kind, "spherical", variant)
             out["S"][kind] = s
-            out["xyz_ok"][kind] = s is not None and X.project(src, gs, kind, "cartesian") == s
-            out["D"][kind] = X.project(dst, gd, kind, "spherical")
-            if out["D"][kind] is not None and X.project(dst, gd, kind, "cartesian") != out["D"][kind]:
-                out["D"][kind] = None
+            out["xyz_ok"][kind] = s is not None and X.project(src, gs, kind, "cartesian", variant) == s
+            # destination points are the destination grid's elements as it reports them in (lon, lat); whether
+            # its x, y, z denote the same points travels in the signature
+            out["D"][kind] = X.project(dst, gd, kind, "spherical", dvariant)
+            out["dxyz_ok"][kind] = out["D"][kind] is not None and X.project(dst, gd, kind, "cartesian", dvariant) == out["D"][kind]
         out["sizes"] = {"nodes": int(gs.n_node), "face centers": int(gs.n_face), "edge centers": int(gs.n_edge)}
     except Exception as e:  # noqa
         out["error"] = "%s: %s" % (type(e).__name__, str(e)[:200])
@@ -183,7 +197,7 @@ def tracer(lead_shape, n):
 
 def run_pair(job):
     p, plan_a, matrix, plans, seed = job["pair"], job["a"], job["matrix"], job["plans"], job["seed"]
-    src, variant, dst = p
+    src, variant, dst, dvariant = p
     pid = plan_a["pid"]
     ux = hux.import_ux()
     rng = np.random.default_rng(seed)
@@ -198,7 +212,7 @@ def run_pair(job):
         ents.setdefault(cid, []).append(e)
         tags["%s#%d" % (cid, j)] = tag
 
-    same = dst is src or (eid(dst) == eid(src) and variant == "topology")
+    same = same_grid(p)
     Wcache = {}
     # identity-tracer configurations first: they yield the weights the other IDW cases are compared with
     order = sorted(range(len(matrix)), key=lambda i: (matrix[i]["method"] != "idw" or len(matrix[i]["lead"]) != 1, i))
@@ -216,10 +230,10 @@ def run_pair(job):
             if m["k"] > min(n_src, plan_a["sizes"]["nodes"]):
                 continue  # not admissible on this source
             call += " k=%d power=%g" % (m["k"], m["power"])
-        sigbase = {"kind": kind, "remap_to": remap_to, "coord": coord, "method": m["method"], "variant": variant, "src_xyz_consistent": bool(plan_a["xyz_ok"][kind]) if coord == "cartesian" else True, "pattern": job["pattern"][kind], "predicted_kind": job["predicted"][kind]}
+        sigbase = {"kind": kind, "remap_to": remap_to, "coord": coord, "method": m["method"], "variant": variant, "src_xyz_consistent": bool(plan_a["xyz_ok"][kind]) if coord == "cartesian" else True, "dst_xyz_consistent": bool(plan_a["dxyz_ok"][remap_to]) if coord == "cartesian" else True, "pattern": job["pattern"][kind], "predicted_kind": job["predicted"][kind]}
         try:
             gs = X.build_grid(src, variant)
-            gd = gs if same else X.build_grid(dst, "topology")
+            gd = gs if same else X.build_grid(dst, dvariant)
             lead_shape = {0: (), 1: (n_src,) if m["method"] == "idw" else (3,), 2: (2, 3)}[len(m["lead"])]
             if m["method"] == "nn":
                 data = tracer(lead_shape, n_src)
@@ -379,7 +393,7 @@ def run(ctx):
             ent = ent_index[(cid, jn)]
             call = tags["%s#%d" % (cid, jn)]
             coord = "cartesian" if " cartesian " in call else "spherical"
-            sig = {"kind": kind, "remap_to": rt, "coord": coord, "variant": job["pair"][1], "pattern": job["pattern"][kind], "predicted_kind": job["predicted"][kind], "src_xyz_consistent": bool(job["a"]["xyz_ok"][kind]) if coord == "cartesian" else True}
+            sig = {"kind": kind, "remap_to": rt, "coord": coord, "variant": job["pair"][1], "pattern": job["pattern"][kind], "predicted_kind": job["predicted"][kind], "src_xyz_consistent": bool(job["a"]["xyz_ok"][kind]) if coord == "cartesian" else True, "dst_xyz_consistent": bool(job["a"]["dxyz_ok"][rt]) if coord == "cartesian" else True}
             if cid + "|as" in by_case and ent["m"] in ("pick", "kset", "ident"):
                 # does the exact oracle accept the answer as the nearest element(s) of the PREDICTED (wrong) kind?
                 sig["answer_is_nearest_of_predicted_kind"] = not any(x[0] == jn for x in failed.get(cid + "|as", set()))
